@@ -484,13 +484,18 @@ impl FileCombiner {
             debug_assert!(self.buf.is_empty());
             return Ok(());
         }
+        // Take the queue together with the buffer it describes: if the write fails, the
+        // queued files go with their bytes (the error is reported by the caller), rather
+        // than staying queued with offsets into a buffer that no longer exists.
+        let buf = take(&mut self.buf);
+        let queue = take(&mut self.queue);
         let hash = self
             .block_dir
-            .store_or_deduplicate(take(&mut self.buf).freeze(), &mut self.stats, monitor)
+            .store_or_deduplicate(buf.freeze(), &mut self.stats, monitor)
             .await?;
         self.stats.combined_blocks += 1;
         self.finished
-            .extend(self.queue.drain(..).map(|qf| IndexEntry {
+            .extend(queue.into_iter().map(|qf| IndexEntry {
                 addrs: vec![Address {
                     hash: hash.clone(),
                     start: qf.start.try_into().unwrap(),
